@@ -111,3 +111,14 @@ check("C06",
       "templates of three boxes; sphere auto-geometry outside",
       "symbolic execution of the real Python code with z3 (symx), read-back parser, concrete replay",
       "DESIGN.md 4/C06")
+check("C12",
+      "Bounded symbolic execution of Mesh.add/delete/assemble/clear/backport/write/modify_patch/set_default_patch and the "
+      "lists' clear() on box models with symbolic placement: the history (action per step, deleted operation, moved "
+      "vertex index, 3 symbolic displacement reals) is chosen by the solver; at every write the file is compared - "
+      "structure syntactically, coordinates and counts by z3 - with the file a freshly built equivalent model writes "
+      "(reference interpreter in the harness); after backport every operation must hold the positions of its own vertices.",
+      "history length <= 3 (+ final write) on 2 boxes in quick, <= 4 on 2-3 boxes in thorough; delete takes effect at the next "
+      "(re)assembly; modify_patch of a patch without faces and deleting every operation are outside; trusted: a fresh model "
+      "writes what it should (C06)",
+      "symbolic execution of the real Python code with z3 (symx), histories as solver variables, differential oracle, replay",
+      "DESIGN.md 4/C12")
